@@ -21,7 +21,8 @@ RULE = ("fault injection by real process kill: the component under test (server,
         "run lists the mutations of every persisting handler (server: config upload, index upload, close_service after each; "
         "client: create-service, generate-key, encrypt-database, upload acknowledgements, close_service), then for every mutation k "
         "the child is ended with os._exit(137) immediately before k (which is also 'immediately after k-1'; unflushed buffers are "
-        "lost as with kill -9) and, for the first and last write of every file, with the first half of the data flushed ('torn'). "
+        "lost as with kill -9), for the first and last write of every file with the first half of the data flushed ('torn'), and right after "
+        "every open-for-write (file created or truncated, nothing in it yet - data may reach a file without write(): sendfile, copy). "
         "Recovery = what a user would do: restart the component on the same directory, re-run the interrupted command (a step "
         "refused as 'already ...' counts as done; an interrupted create-service, which never returned a sid, is run again), finish "
         "the workflow. Oracle: after a server crash a new connection gets an ok init echo whose state matches the files on disk; "
@@ -29,7 +30,8 @@ RULE = ("fault injection by real process kill: the component under test (server,
         "mutation (confirmed from its event log and exit status 137); distinct = distinct (component, operation, mutation, mode).")
 ASSUMPTIONS = ["power-loss reordering below the file system (no fsync modelling) and disk-full are out of reach",
                "client and server use separate scratch HOME directories; each CLI command is a fresh Service loaded from disk",
-               "the server's 1 s cleanup pause is a zero-delay shim in the child processes"]
+               "the server's 1 s cleanup pause is a zero-delay shim in the child processes",
+               "the children's TMPDIR is on another file system than their HOME when the machine has one (here /dev/shm), every child has its own hash seed, a sample of the scenarios also runs with -O"]
 
 PY = sys.executable
 CHILD = os.path.join(VERIF_DIR, "vlib", "c13_child.py")
@@ -54,6 +56,26 @@ def scenario_base(scheme, dbi=0):
             "queries": [k.hex() for k in db] + [b"absent".hex()]}
 
 
+def other_device_tmp(workdir, create=True):
+    """a scratch directory for the children's TMPDIR on ANOTHER file system than the scratch HOME (real deployments often have /tmp
+    on tmpfs and the data directory on a disk): code that prepares a file under the system temp directory and moves it into place
+    then copies instead of renaming.  Returns None where no second writable file system exists."""
+    try:
+        dev = os.stat(workdir).st_dev
+    except OSError:
+        return None
+    for cand in ("/dev/shm", "/run/shm", "/var/tmp", "/tmp"):
+        try:
+            if os.path.isdir(cand) and os.access(cand, os.W_OK) and os.stat(cand).st_dev != dev:
+                d = os.path.join(cand, os.path.basename(workdir.rstrip("/")) + "-tmp")
+                if create:
+                    os.makedirs(d, exist_ok=True)
+                return d
+        except OSError:
+            continue
+    return None
+
+
 class Proc:
     def __init__(self, kind, spec, workdir, tag):
         self.spec = dict(spec)
@@ -66,6 +88,9 @@ class Proc:
         # every child has its own hash seed (as separate real processes do); derived from the tag, so a run is reproducible
         import zlib
         env = dict(os.environ, PYTHONDONTWRITEBYTECODE="1", PYTHONHASHSEED=str(1 + zlib.crc32(("%s/%s" % (kind, tag)).encode()) % 4000))
+        tmpd = other_device_tmp(workdir)
+        if tmpd:
+            env["TMPDIR"] = tmpd
         self.p = subprocess.Popen([PY, CHILD, kind, self.spec_path], env=env, stdout=subprocess.DEVNULL, stderr=subprocess.PIPE, cwd=workdir)
 
     def wait(self, timeout=120):
@@ -250,7 +275,10 @@ def run_scenario(sc, info=None):
     finally:
         for p in procs:
             p.kill()
+        _t = other_device_tmp(work, create=False)
         shutil.rmtree(work, ignore_errors=True)
+        if _t:
+            shutil.rmtree(_t, ignore_errors=True)
 
 
 def _ls(d):
@@ -292,6 +320,8 @@ def select_points(events):
         pts.append((e["idx"], "before", e))
         if e["kind"] == "write" and e["size"] >= 2:
             pts.append((e["idx"], "torn", e))
+        if e["kind"] == "open_w":
+            pts.append((e["idx"], "after", e))   # right after the open (file created / truncated), before anything reaches it
     return pts
 
 
@@ -335,7 +365,10 @@ def dry_run(base):
     finally:
         for p in procs:
             p.kill()
+        _t = other_device_tmp(work, create=False)
         shutil.rmtree(work, ignore_errors=True)
+        if _t:
+            shutil.rmtree(_t, ignore_errors=True)
 
 
 def scenarios_for(base, dry):
